@@ -228,13 +228,19 @@ template <class E> static void family_generated(E &e, long &kc, size_t n, int re
 	if (!case_begin(kc++, d.str())) return;
 	Rng r = case_rng(kc, 2); tl_rng = &r;
 	Tally tl; std::string enc = e.name();
+	// every other secret is generated into an object that already holds a secret (of another size at first): a chain of shuffles
+	// or a retry loop that keeps one variable does exactly that (seeded change c02_createstacksecret_append)
+	TMCG_StackSecret<typename E::Secret> ss_used; e.shuffler = 0; e.gen(ss_used, false, n > 2 ? n - 1 : n + 1);
 	for (int rep = 0; rep < reps; rep++) for (int cyc = 0; cyc < 2; cyc++) {
 		if (cyc && n < 2) continue;      // rotations are defined for 2..TMCG_MAX_CARDS
 		int pattern = cyc ? (rep % 2 ? 1 : 0) : (int)((rep + n) % 4);
 		std::vector<size_t> T = make_types(n, pattern, e.maxtype(), r);
 		e.shuffler = r.below(e.players());
 		auto s = make_stack(e, T, r);
-		TMCG_StackSecret<typename E::Secret> ss;
+		TMCG_StackSecret<typename E::Secret> ss_fresh;
+		bool reuse = ((rep + cyc) % 2) == 1;
+		TMCG_StackSecret<typename E::Secret> &ss = reuse ? ss_used : ss_fresh;
+		count(reuse ? "generated_into_used_object" : "generated_into_fresh_object");
 		size_t R = e.gen(ss, cyc != 0, n);
 		std::vector<size_t> pi = index_of(ss);
 		std::string cj = J().kv("cyclic", cyc != 0).kv("R", (ll)R).kv("pattern", pat_name(pattern)).kv("shuffler", (ll)e.shuffler).str();
